@@ -120,11 +120,14 @@ impl Op {
         }
         // A user defined macro?
         else if let Ok(macro_definition) = ctx.get_resource(&name) {
-            // search for whitespace-delimited "inv" in order to avoid matching
-            // tokens *containing* inv (INVariant, subINVolution, and a few other
-            // pathological cases)
+            // The inv modifier may be given anywhere in the invocation (prefix,
+            // infix, suffix), and also in the explicit `inv=true` form, so we
+            // look for it among the parsed arguments, rather than in the text
             let def = &parameters.definition;
-            let inverted = def.contains(" inv ") || def.ends_with(" inv");
+            let args = def.split_into_parameters();
+            let inverted = args
+                .get("inv")
+                .is_some_and(|v| v.is_empty() || v.to_lowercase() == "true");
             let mut next_param = parameters.next(def);
             next_param.definition = macro_definition;
             return Op::op(next_param, ctx)?.handle_inversion(inverted);
